@@ -630,9 +630,12 @@ def d7_selection(chk, repo):
                     return True
                 h = a.ctx.head_of(arg)
                 if h and h[0] == "ifexp":
+                    # read in the positive orientation: `0 if <label> is None else <component>`
                     cnd, tv, fv = a.ctx.args_of(arg)
                     hc_ = a.ctx.head_of(cnd)
-                    return a.eq(tv, want) and is_const(a.ctx, fv, 0) and bool(hc_ and hc_ == ("cmp", "isnot")) and \
+                    if hc_ == ("cmp", "isnot"):
+                        tv, fv = fv, tv
+                    return a.eq(fv, want) and is_const(a.ctx, tv, 0) and bool(hc_ and hc_ in (("cmp", "is"), ("cmp", "isnot"))) and \
                         any(is_const(a.ctx, x, None) for x in a.ctx.args_of(cnd))
                 return False
             chk.ob(PU + "inplane_angle::components-in-their-places", comp_ok(c_[1][0], "y") and comp_ok(c_[1][1], "x"), "C20.D7",
